@@ -304,6 +304,22 @@ def _reaches_before(body, a, b_, blocks, header):
     return b_ in r and a not in body.reach([b_], avoid=[header])
 
 
+def _modified_in_loop(b, op, blocks):
+    """the events handed to process_events come from a local that is (re)assigned or mutably borrowed inside the loop"""
+    l = R.origin_local(b, op)
+    pl = op_place(op)
+    cands = {x for x in (l, pl[0] if pl else None) if x is not None}
+    d = b.single_def(pl[0]) if pl else None
+    if d and d[1] == R.TERM and "fn" in d[2] and Callee(d[2]["fn"]).decl_path == "std::clone::Clone::clone" and d[2]["args"]:
+        l2 = R.origin_local(b, d[2]["args"][0])
+        if l2 is not None:
+            cands.add(l2)
+    for l in cands:
+        if b.local_name(l) and any(x[0] in blocks for x in b.defs_of(l)):
+            return True
+    return False
+
+
 def _body_args_and_order(prog, chk, b, bb_body, t_body, blocks, h, who):
     where = b.where(bb_body, t_body.get("line"))
     o = R.origin(b, t_body["args"][0], carriers={"clone": 0})
@@ -326,7 +342,7 @@ def _body_args_and_order(prog, chk, b, bb_body, t_body, blocks, h, who):
                 # that local must come from SvgElement::inner_events and not be modified in the loop
                 defs = b.defs_of(l)
                 src_ok = all(x[0] not in blocks for x in defs) and any(_from_inner_events(b, x) for x in defs)
-    if not src_ok and o[0] != "call":
+    if not src_ok and not _modified_in_loop(b, t_body["args"][0], blocks):
         # the events handed to process_events cannot be traced (a struct field, a helper's parameter): no verdict
         chk.undecided("A13.loop-skeleton", f"{who}:body-events", where, "the events processed per pass cannot be traced to SvgElement::inner_events()")
     else:
